@@ -55,6 +55,19 @@ class R:
             return '%s(%s)' % (nm.replace(' ', ''), ', '.join(self.e(a) for a in n['inner'][1:]))
         if k == 'LambdaExpr':
             return 'lambda'
+        if k == 'CXXDefaultArgExpr':
+            return 'default'
+        if k in ('CXXTemporaryObjectExpr', 'CXXUnresolvedConstructExpr'):
+            import re as _re
+            t = n.get('type', {}).get('qualType', '')
+            while '<' in t:
+                t2 = _re.sub(r'<[^<>]*>', '', t)
+                if t2 == t: break
+                t = t2
+            t = t.split('::')[-1].replace('const ', '').strip()
+            return 'new_%s(%s)' % (t, ', '.join(self.e(a) for a in n.get('inner', [])))
+        if k == 'InitListExpr' and len(n.get('inner', [])) == 1:
+            return self.e(n['inner'][0])
         if k == 'CXXConstructExpr':
             return 'ctor(%s)' % ', '.join(self.e(a) for a in n.get('inner', []))
         return '?' + str(k)
@@ -88,7 +101,9 @@ class R:
         if k in ('WhileStmt', 'CXXForRangeStmt', 'DoStmt'):
             return 'loop'
         if k == 'ReturnStmt':
-            return 'return'
+            return ('return ' + self.e(n['inner'][0])) if n.get('inner') else 'return'
+        if k == 'BreakStmt':
+            return 'break'
         if k == 'CXXThrowExpr':
             return 'throw'
         return self.e(n)
@@ -178,6 +193,25 @@ def facts(tu, repo, root='/verif'):
     if len(rf) != 1:
         raise E('astfacts: expected exactly one instantiation of Remove(const ItemFilter&) for C11Filter, found %d' % len(rf))
     F['remove_filter_stmts'] = [x for x in (r.top(y) for y in body(rf[0]).get('inner', [])) if x is not None]
+    its = cx.find_spec(objs, {'class': 'HashSetConstIterator'})
+    if isinstance(its, list):
+        its = its[0]
+    for nm_, key_ in (('pvInc', 'iter_inc_stmts'), ('pvMove', 'iter_move_stmts')):
+        ms_ = _methods(its, nm_)
+        if len(ms_) != 1:
+            raise E('astfacts: expected exactly one HashSetConstIterator::%s with a body, found %d' % (nm_, len(ms_)))
+        F[key_] = [x for x in (r.top(y) for y in body(ms_[0]).get('inner', [])) if x is not None]
+    gb = [m for m in _methods(spec, 'GetBegin') if not [p_ for p_ in m.get('inner', []) if p_.get('kind') == 'ParmVarDecl']]
+    if len(gb) != 1:
+        raise E('astfacts: expected exactly one HashSet::GetBegin()')
+    ct = [m for m in its.get('inner', []) if m.get('kind') == 'CXXConstructorDecl'
+          and len([p_ for p_ in m.get('inner', []) if p_.get('kind') == 'ParmVarDecl']) == 4
+          and any(y.get('kind') == 'CompoundStmt' for y in m.get('inner', []))]
+    if len(ct) != 1:
+        raise E('astfacts: expected exactly one 4-argument constructor of HashSetConstIterator, found %d' % len(ct))
+    F['iter_ctor_stmts'] = [x for x in (r.top(y) for y in body(ct[0]).get('inner', [])) if x is not None]
+    F['iter_ctor_inits'] = [Q(r.e(y['inner'][0]) if y.get('inner') else '') for y in ct[0].get('inner', []) if y.get('kind') == 'CXXCtorInitializer']
+    F['get_begin_stmts'] = [x for x in (r.top(y) for y in body(gb[0]).get('inner', [])) if x is not None]
     F['worker_noexcept'] = [Q(worker[0].get('type', {}).get('qualType', ''))]
     F['wrapper_noexcept'] = [Q(wrapper[0].get('type', {}).get('qualType', ''))]
     return F
